@@ -19,7 +19,7 @@ CLASSMODELS.update({
     # any variable group, seen through len()/[] : its identifier range
     'BaseVariableGroup': {'file': V, 'fields': {'ids': 'range:ids_lo:ids_hi'}, 'invariant': ['self.ids_lo >= 1']},
     # the formula is its own variables manager (CNF / OPB: VariablesManager.__init__(self, self))
-    'VariablesManager': {'file': V, 'fields': {'_groups': 'opaque', '_formula': 'obj:BaseCNF'}},
+    'VariablesManager': {'file': V, 'fields': {'_groups': 'countedlist', '_formula': 'obj:BaseCNF'}},
 })
 
 CONTRACTS = {
@@ -39,7 +39,10 @@ CONTRACTS = {
             'implies(vg.ids_lo >= vg.ids_hi, self._formula._numvar == old(self._formula._numvar))',
             # contiguity bookkeeping (C11): the declared variable count becomes the group's last identifier
             'implies(vg.ids_lo < vg.ids_hi, self._formula._numvar == vg.ids_hi - 1 and vg.ids_lo > old(self._formula._numvar))',
+            # the group is registered exactly once, last (C11: labels and groups stay aligned), also when it is empty
+            'ocount(self._groups) == ocount(old(self._groups)) + 1', 'olast(self._groups) == vg',
         ],
+        'ensures_on_raise': ['ocount(self._groups) == ocount(old(self._groups))', 'self._formula._numvar == old(self._formula._numvar)'],
     },
     (V, 'BinaryMappingVariables._unsafe_index_to_lit'): {
         'property': ['C11', 'C10'],
